@@ -210,6 +210,9 @@ form('proto-call-callresult-class-path', { ops: ['concat'], nodemand: true }, F 
 form('proto-call-paren-class-path', { ops: ['concat'], nodemand: true }, F => `(w.X${F.id()}).prototype.concat.call(${F.loc()}, ${F.s()})`)
 // the method is missing on the prototype object: reading `.call` of undefined throws BEFORE the arguments are evaluated (D35)
 form('proto-call-missing-method', { ops: ['concat'], nodemand: true, kf: 'D35' }, F => `Number.prototype.concat.call(${F.loc()}, ${F.f()})`)
+// exotic apply shapes (D38): the whole argument list spread, a third argument that apply ignores
+form('proto-apply-spread-everything', { ops: ['concat'], nodemand: true, kf: 'D38' }, F => `String.prototype.concat.apply(...[${F.loc()}, [${F.s()}, ${F.f()}]])`)
+form('proto-apply-ignored-third-argument', { ops: ['concat'], nodemand: true, kf: 'D38' }, F => `String.prototype.concat.apply(${F.loc()}, [${F.s()}], ${F.f()})`)
 form('proto-apply-arraylit', { ops: ['concat'] }, F => `String.prototype.concat.apply(${F.loc()}, [${F.s()}, ${F.lit()}, ${F.f()}])`)
 form('proto-apply-no-list', { ops: ['trim'] }, F => `String.prototype.trim.apply(${F.loc()})`)
 form('proto-apply-no-list-effect-this', { ops: ['toUpperCase'] }, F => `String.prototype.toUpperCase.apply(${F.f()})`)
